@@ -376,8 +376,8 @@ func GenOpsT(t *rapid.T, cfg pat.Cfg, pool []string, n int, o GenOpts) ([]Op, []
 			ops = append(ops, op)
 		case k < 10:
 			m := rapid.IntRange(2, len(pool)).Draw(t, "manyN")
-			if m > 10 {
-				m = 10
+			if m > 10 && !(len(pool) > 16 && rapid.IntRange(0, 2).Draw(t, "manyAll") == 0) {
+				m = 10 // a pool with a structure of unusual size is registered in one go now and then
 			}
 			perm := rapid.Permutation(pool).Draw(t, "manyPerm")
 			op := Op{Kind: "handleMany", Patterns: perm[:m], Methods: genMethods(t, nil, false, o.Trace)}
